@@ -191,6 +191,24 @@ def runner(rep, tier, seed, replay):
                 rep.violation("round-trip/%s" % v, "listing %r fed to a fresh shell: `%s` behaves as %s, the table says %s (%s)" % (content, n, got, v, want),
                               {"hist": h, "listing": content, "name": n}, {"op": "roundtrip", "value": v, "name": n, "value_has_squote": v == "v3"})
                 break
+    # bare uses: the alias name is the whole command (no further word), or is followed only by a number - at line start, after a
+    # pipe, after `;` and after `&&`; the alias is redefined before each use so that every use is told apart by its tag
+    bare_names = [n for n in NAMES if n not in REAL] + ["42", "0.5", "v_1", "-n" if False else "n-"]
+    bjobs = []
+    for n in bare_names:
+        uses = [("head", "%s"), ("afterpipe", "vio X | %s"), ("aftersemi", "vmk Z1 0 ; %s"), ("afterand", "vmk Z2 0 && %s"), ("numarg", "%s 7"),
+                ("numarg-afterand", "vmk Z3 0 && %s 1.5")]
+        text = "".join("alias %s='vpa B%d'\n%s\n" % (n, i, u % n) for i, (_, u) in enumerate(uses))
+        bjobs.append((n, uses, {"entry": "script", "text": text, "timeout": 20}))
+    for (n, uses, j), res in zip(bjobs, run_cases([b[2] for b in bjobs])):
+        rep.cov["evaluations"] += 1
+        got = [r.get("argv") for r in res.get("log", []) if r.get("h") == "pa"]
+        want = [["B%d" % i] + (["7"] if k == "numarg" else ["1.5"] if k == "numarg-afterand" else []) for i, (k, _) in enumerate(uses)]
+        if got != want:
+            wrong = [uses[i][0] for i in range(len(uses)) if want[i] not in got]
+            rep.violation("bare-use/%s" % (wrong[0] if wrong else "extra"), "alias %s used as a whole command: the value ran as %s, expected %s (stdout %r stderr %r)\n%s"
+                          % (n, got, want, res.get("stdout", "")[-120:], res.get("stderr", "")[-200:], j["text"]),
+                          {"bare": n, "text": j["text"], "got": got}, {"op": "bare-use", "name": n, "digits_only": not any(c.isalpha() or c in "_-" for c in n)})
     rep.cov["distinct_nontrivial"] = len({j["text"] for j in jobs})
     rep.cov["traces_validated_against_impl"] = rep.cov["evaluations"]
     rep.cov["round_trips"] = len(jobs2)
